@@ -53,6 +53,8 @@ type Table struct {
 	DefaultThrift   string   `json:"default_thrift_lib"`
 	InitCurInit     bool     `json:"init_cur_init"` // fresh process: initialism correction of the initial style
 	InitDoInit      bool     `json:"init_do_init"`  // fresh process: what re-selecting the default style yields
+	// where the go/ast reading of option.go and the built package disagree (the package wins)
+	Disagreements []string `json:"source_vs_package_disagreements,omitempty"`
 }
 
 // Probe is the identifier used to observe initialism correction.
@@ -267,46 +269,99 @@ func Extract(repo string) (*Table, error) {
 		ResetStyles(nil)
 	}
 
+	// The table of the freshly built package is authoritative: it is what the code does.  The
+	// go/ast reading of option.go supplies (a) the classification of the hand-written closures and
+	// (b) a cross-check; where it disagrees with the package (order, names, defaults) the
+	// disagreement is recorded and the run continues with the package's table, so that the theorems
+	// are checked against it and the correspondence / oracles still produce a failing input.
+	note := func(format string, a ...interface{}) {
+		t.Disagreements = append(t.Disagreements, fmt.Sprintf(format, a...))
+	}
 	info, err := readAST(repo)
 	if err != nil {
-		return nil, err
-	}
-	// cross-check source against the built package
-	if !reflect.DeepEqual(info.fieldTags, t.FeatureTags) {
-		return nil, fmt.Errorf("Features tags in option.go source and in the built package differ:\n src %v\n pkg %v", info.fieldTags, t.FeatureTags)
-	}
-	for i, fn := range info.fieldName {
-		if info.defaults[fn] != t.FeatureDefaults[i] {
-			return nil, fmt.Errorf("default of Features.%s: source says %v, built package says %v", fn, info.defaults[fn], t.FeatureDefaults[i])
+		note("go/ast read of generator/golang/option.go failed (%v); hand-written parameters classified by their well-known names", err)
+		info = &astInfo{defaults: map[string]bool{}}
+		for _, e := range []Entry{{Name: "thrift_import_path", Action: AImportPath}, {Name: "use_package", Action: AUsePackage},
+			{Name: "naming_style", Action: ANamingStyle}, {Name: "ignore_initialisms", Action: AIgnoreInit},
+			{Name: "package_prefix", Action: APackagePrefix}, {Name: "template", Action: ATemplate}} {
+			info.special = append(info.special, e)
+		}
+	} else {
+		if !reflect.DeepEqual(info.fieldTags, t.FeatureTags) {
+			note("Features tags: option.go source has %v, built package has %v", info.fieldTags, t.FeatureTags)
+		}
+		for i, fn := range info.fieldName {
+			if i < len(t.FeatureDefaults) && i < len(info.fieldTags) && info.fieldTags[i] == t.FeatureTags[i] && info.defaults[fn] != t.FeatureDefaults[i] {
+				note("default of Features.%s: source says %v, built package says %v (package value used)", fn, info.defaults[fn], t.FeatureDefaults[i])
+			}
+		}
+		for k := range info.defaults {
+			ok := false
+			for _, fn := range info.fieldName {
+				ok = ok || fn == k
+			}
+			if !ok {
+				note("defaultFeatures names unknown field %s", k)
+			}
 		}
 	}
-	for k := range info.defaults {
-		ok := false
-		for _, fn := range info.fieldName {
-			ok = ok || fn == k
+	specialAction := map[string]string{}
+	var expected []string // order the source suggests: codeUtilsParams, then one parameter per field
+	for _, e := range info.special {
+		if _, dup := specialAction[e.Name]; dup {
+			note("hand-written parameter %q occurs twice in codeUtilsParams", e.Name)
+			continue
 		}
-		if !ok {
-			return nil, fmt.Errorf("defaultFeatures names unknown field %s", k)
+		specialAction[e.Name] = e.Action
+		expected = append(expected, e.Name)
+	}
+	tagIdx := map[string]int{}
+	for i, n := range t.FeatureTags {
+		if _, dup := tagIdx[n]; dup {
+			note("two Features fields carry the option name %q; the first one is taken as the documented feature", n)
+		} else {
+			tagIdx[n] = i
 		}
+		expected = append(expected, n)
 	}
 	opts := new(golang.GoBackend).Options()
-	ns := len(info.special)
-	if len(opts) != ns+len(t.FeatureTags) {
-		return nil, fmt.Errorf("GoBackend.Options() has %d entries, source has %d hand-written + %d feature parameters", len(opts), ns, len(t.FeatureTags))
+	var got []string
+	for _, o := range opts {
+		got = append(got, o.Name)
 	}
-	for i, o := range opts {
+	if !reflect.DeepEqual(got, expected) {
+		first := 0
+		for first < len(got) && first < len(expected) && got[first] == expected[first] {
+			first++
+		}
+		g, x := "(end)", "(end)"
+		if first < len(got) {
+			g = got[first]
+		}
+		if first < len(expected) {
+			x = expected[first]
+		}
+		note("lookup order: GoBackend.Options() of the built package is not codeUtilsParams followed by the Features fields in source order "+
+			"(%d vs %d entries, first difference at position %d: package %q, source %q); the package order is used", len(got), len(expected), first, g, x)
+	}
+	for _, o := range opts {
 		e := Entry{Name: o.Name, Action: AUnknown}
-		if i < ns {
-			if info.special[i].Name != o.Name {
-				return nil, fmt.Errorf("parameter %d: source name %q, package name %q", i, info.special[i].Name, o.Name)
-			}
-			e.Action = info.special[i].Action
-		} else {
-			j := i - ns
-			if t.FeatureTags[j] != o.Name {
-				return nil, fmt.Errorf("parameter %d: feature tag %q, package name %q", i, t.FeatureTags[j], o.Name)
-			}
-			e.Action, e.FeatIdx = AFeature, j
+		act, isSpecial := specialAction[o.Name]
+		idx, isFeature := tagIdx[o.Name]
+		switch {
+		case isSpecial && isFeature:
+			note("option name %q is both a hand-written parameter and a Features tag", o.Name)
+			e.Action = act
+		case isSpecial:
+			e.Action = act
+		case isFeature:
+			// the feature an option documents is the field that carries its name as tag
+			e.Action, e.FeatIdx = AFeature, idx
+		default:
+			note("option %q of the built package is neither in codeUtilsParams nor a Features tag", o.Name)
+		}
+		if e.Action == AUnknown && isSpecial {
+			note("the action closure of hand-written parameter %q was not recognised", o.Name)
 		}
 		t.Entries = append(t.Entries, e)
 	}
